@@ -104,6 +104,7 @@ type NegScript struct {
 	Header3    int      `json:"header_after_auth"`
 	StartTLS   int      `json:"starttls"`
 	Mechs      []string `json:"mechs"`
+	MechsTLS   []string `json:"mechs_after_tls,omitempty"` // if set, the list advertised once TLS is up
 	ExtraFeats bool     `json:"extra_features"`
 	TLSReply   int      `json:"tls_reply"`
 	Cert       int      `json:"cert"`
@@ -330,7 +331,11 @@ func (sc *SrvConn) features() string {
 			}
 		}
 		b.WriteString(sc.sep() + "<mechanisms xmlns='" + nsSASL + "'>")
-		for _, m := range scr.Mechs {
+		mechs := scr.Mechs
+		if sc.TLS && scr.MechsTLS != nil {
+			mechs = scr.MechsTLS
+		}
+		for _, m := range mechs {
 			b.WriteString("<mechanism>" + xmlEscape(m) + "</mechanism>")
 		}
 		b.WriteString("</mechanisms>")
